@@ -81,6 +81,16 @@ class SigGen:
                 j = rng.randrange(i)
                 instances[i] = instances[j]
                 copies[str(i)] = j
+        # an instance that comes into being only after another one of its class has been dropped and collected
+        self.reborn: dict[str, int] = {}
+        self.dead: set[int] = set()
+        if len(instances) >= 2 and rng.random() < 0.3:
+            i = rng.randrange(1, len(instances))
+            if str(i) not in copies and i not in copies.values():
+                j = rng.choice([x for x in range(i) if str(x) not in copies] or [0])
+                if str(j) not in copies and j not in [v for v in copies.values()]:
+                    instances[i] = instances[j]
+                    self.reborn[str(i)] = j
         self.classes, self.instances, self.evparents, self.nev = classes, instances, evparents, nev
         self.chan_of: dict[tuple[int, str], int] = {}
         self.chan_ev: list[int] = []
@@ -104,11 +114,13 @@ class SigGen:
             if st["open"]:
                 ops.append({"op": "leave", "s": s})
         return {"kind": "sig", "nevcls": nev, "evparents": evparents, "classes": classes, "instances": instances,
-                "copies": copies, "ops": ops}
+                "copies": copies, "reborn": self.reborn, "ops": ops}
 
     def op_access(self) -> dict[str, Any]:
         rng = self.rng
-        inst = rng.randrange(len(self.instances))
+        inst = rng.choice([x for x in range(len(self.instances)) if x not in self.dead])
+        if str(inst) in self.reborn:
+            self.dead.add(self.reborn[str(inst)])       # its predecessor is gone from now on
         attr = rng.choice(attrs_of(self.classes, self.instances[inst]))
         ev = resolve_evcls(self.classes, self.instances[inst], attr)
         if (inst, attr) not in self.chan_of:
@@ -172,7 +184,11 @@ class SigGen:
             if rng.random() < 0.03:
                 return {"op": "dispatch", "chan": None, "cls": 0, "n": 1, **self.unbound_ref()}
             subscribed = sorted({c for st in self.streams.values() if st["open"] for c in st.get("chans", [])})
-            chan = rng.randrange(len(self.chan_ev))
+            dead_chans = {n for (i, _a), n in self.chan_of.items() if i in self.dead}
+            live_chans = [n for n in range(len(self.chan_ev)) if n not in dead_chans]
+            if not live_chans:
+                return None
+            chan = rng.choice(live_chans)       # (the signals of a collected instance cannot be reached any more)
             want = self.chan_ev[chan]
             good = [k for k in range(self.nev) if is_sub(self.evparents, k, want)]
             cls = rng.choice(good) if rng.random() < 0.93 else rng.randrange(self.nev)
